@@ -162,15 +162,19 @@ macro_rules! impl_bop {
             /// Computes the opinion on the logical conjunction of `self` and `rhs`.
             pub fn mul(&self, rhs: &Self) -> Self {
                 let a = self.base_rate * rhs.base_rate;
+                // 1 - ax*ay as the coproduct of the complements: `1.0 - a` cancels catastrophically when both base
+                // rates approach 1, and the self-check below then rejects the result
+                let na = (1.0 - self.base_rate) + (1.0 - rhs.base_rate)
+                    - (1.0 - self.base_rate) * (1.0 - rhs.base_rate);
                 let b = self.b() * rhs.b()
                     + ((1.0 - self.base_rate) * rhs.base_rate * self.b() * rhs.u()
                         + (1.0 - rhs.base_rate) * self.base_rate * rhs.b() * self.u())
-                        / (1.0 - a);
+                        / na;
                 let d = self.d() + rhs.d() - self.d() * rhs.d();
                 let u = self.u() * rhs.u()
                     + ((1.0 - rhs.base_rate) * self.b() * rhs.u()
                         + (1.0 - self.base_rate) * rhs.b() * self.u())
-                        / (1.0 - a);
+                        / na;
                 Self::new(b, d, u, a)
             }
 
